@@ -196,7 +196,9 @@ func (fst *FSTree) Query(q *query.Query, local, internal bool) (*iterator.Iterat
 	// "a/b/c"), so the walk must start at the parent directory. The query
 	// executor checks every key against the prefix.
 	walkRoot := walkPrefix
-	if keyPrefix != "" && !strings.HasSuffix(keyPrefix, "/") {
+	if keyPrefix != "" && !strings.HasSuffix(keyPrefix, "/") && walkPrefix != fst.basePath {
+		// Never walk above the base path: a prefix that resolves to the base
+		// path itself (eg. "." or "a/..") is walked from there.
 		walkRoot = filepath.Dir(walkPrefix)
 	}
 
